@@ -79,8 +79,13 @@ func cancelScenario(w *world, cfg worldCfg, sc string, target int) (dv *vh.Diver
 		if withhold && cs.part == pSd {
 			return // never answered: the part goroutine reads until its deadline
 		}
-		o, _ := cs.peer.serve(cs.pid, cs.request())
-		cs.feed(o, "eof")
+		// a round trip takes (fake) time: without it a service that finds nothing to wait for
+		// (e.g. at the tip of the chain, where Run asks again at once, without a pause) never blocks
+		go func() {
+			time.Sleep(time.Millisecond)
+			o, _ := cs.peer.serve(cs.pid, cs.request())
+			cs.feed(o, "eof")
+		}()
 	}
 	switch sc {
 	case "cancel-during-compile":
